@@ -4,6 +4,7 @@ import BlockModes.Impl.Cts
 import BlockModes.Lemmas.Chunks
 import BlockModes.Lemmas.MemCtsApi
 import BlockModes.Lemmas.Chk
+import BlockModes.Lemmas.MemWrapper
 import BlockModes.Thm.C08
 /-
   C13 — bad lengths are rejected without side effects.
@@ -129,6 +130,28 @@ theorem counters_never_panic (f : Spec.Flavor) (cn : Ctr.St) (h : cn.ctr < 2 ^ f
     Chk.ctrRemaining? f cn = some (Ctr.remaining f cn) ∧ Chk.beltRemaining? st = some (Belt.remaining st) ∧
     Chk.ctrChunk? block f.cs i = some (rng block (f.cs * i) f.cs) :=
   ⟨Chk.ctrRemaining?_eq f cn h, Chk.beltRemaining?_eq st, Chk.ctrChunk?_eq block f.cs i hi⟩
+
+/-! ### the byte-level stream ciphers (`try_apply_keystream[_inout|_b2b]`) on the checked memory-level mirror -/
+
+open Impl.MemWr Impl.MemCts Glue in
+/-- **never a panic, `Err` exactly when `check_remaining` refuses, and then nothing is modified**: for every
+    length-regular core (CTR ×6, BelT-CTR, OFB — `C12.cores_are_length_regular`), every wrapper state reachable through
+    the API, every data length (0 included) and both aliasing forms.  Inside: `BlockSize - pos` on `u8`,
+    `&buffer[pos..][..n]`, `split_at(rem)`, `&buffer[..tail]`, and the length assertion of every `xor_in2out`. -/
+theorem wrapper_apply_total {σ : Type} {K : Core σ} {P : σ → Prop} (hK : LenCore K P) (w : Nat) (s : Wr σ)
+    (hbuf : s.buffer.length = K.bs) (hpos : s.pos ≤ K.bs) (hP : P s.core) (io : IOBuf) (hw : WF io) :
+    applyMem K w s io =
+      (if s.checkRemaining K io.len then
+        .ok (s.applyUnchecked K w (src io)).1 (s.applyUnchecked K w (src io)).2
+       else .err io.out s) :=
+  applyMem_eq hK w s hbuf hpos hP io hw
+
+open Impl.MemWr Glue in
+/-- buffer-to-buffer with unequal lengths: `Err`, output and state untouched. -/
+theorem wrapper_b2b_len_mismatch {σ : Type} (K : Core σ) (w : Nat) (s : Wr σ) (inp out : Bytes)
+    (h : inp.length ≠ out.length) : ∃ o s', applyB2b K w s inp out = .err o s' ∧ o = out ∧ s'.buffer = s.buffer := by
+  refine ⟨out, s, ?_, rfl, rfl⟩
+  simp [applyB2b, h]
 
 /-- padded decryption of a length that is not a multiple of the block size is an error (for a positive
     block size). -/
